@@ -22,7 +22,7 @@ def run(prop, tier, seed, replay=None):
     if replay:
         try:
             lines = [l.split(" = ")[0] for l in json.load(open(replay)).get("lines", []) if l and l.split(" ")[0] in
-                     ("cd", "cf", "acd", "acf", "fact", "limb", "len", "vec", "ofvec", "sib", "ipp", "pp")]
+                     ("cd", "cf", "acd", "acf", "fact", "limb", "len", "vec", "ofvec", "sib", "ipp", "pp", "ctd", "asd", "zinit", "tod")]
         except Exception:
             lines = []
     if lines is None or lines:
@@ -42,7 +42,7 @@ def run(prop, tier, seed, replay=None):
         "lines_by_key": by_key, "ok": counts.get("OK", 0), "precondition_rejected": counts.get("PRE", 0), "disagreements": counts.get("DIFF", 0),
         "rule": "every integer of a boundary grid (0, ±1, ±2^k±1 for k around the float/double mantissa and the limb sizes, random multi-limb) × "
                 "the doubles/floats adjacent to it ((double)z and its two neighbours) and a fixed list (±0, subnormals, 2^53, 2^63, 2^64, DBL_MAX, ±inf) × "
-                "12 operators on each side; factorials 0…120 (300 thorough); limb vectors with leading zero limbs; perfect powers b^e±1; pp on "
+                "12 operators on each side; construction/assignment/init from the same doubles (and z±0.5, z/3) and conversion back to double; factorials 0…120 (300 thorough); limb vectors with leading zero limbs; perfect powers b^e±1; pp on "
                 "products of small primes of both signs; NaN is outside GMP's contract (PRE)",
         "theorems": L["theorems"], "configs": sorted(bins)}
     V.coverage = cov
